@@ -224,6 +224,10 @@ UnitsPtr Model::takeUnits(const std::string &name)
 
 bool Model::replaceUnits(size_t index, const UnitsPtr &units)
 {
+    if (units == nullptr) {
+        return false;
+    }
+
     bool status = false;
     if (removeUnits(index)) {
         pFunc()->mUnits.insert(pFunc()->mUnits.begin() + ptrdiff_t(index), units);
